@@ -34,6 +34,17 @@ Definition C11_num_var (t : string) (dim : Z) (num_outcomes : option Z) : option
   else if String.eqb t "mprocess" then option_map (fun m => (m * (D * D) - D)%Z) num_outcomes
   else None.
 
+(* generate_cvxpy_constraints_from_cvxpy_variable (sparse = false) / ..._with_sparsity (sparse = true): which expression function is
+   constrained `>> 0` for which outcome index.  None = ValueError (unknown type). *)
+Definition C11_constraint_table (sparse : bool) (t : string) (m : nat) : option (list (string * nat)) :=
+  let nm (a b : string) := if sparse then b else a in
+  if String.eqb t "state"%string then Some [(nm "dmat_from_var"%string "dmat_from_var_with_sparsity"%string, O)]
+  else if String.eqb t "povm"%string then Some (map (fun x => (nm "povm_element_from_var"%string "povm_matrices_from_var_with_sparsity"%string, x)) (seq 0 m))
+  else if String.eqb t "gate"%string then Some [(nm "choi_from_var"%string "choi_from_var_with_sparsity"%string, O)]
+  else if String.eqb t "mprocess"%string then
+    Some (map (fun x => (nm "mprocess_element_choi_from_var"%string "mprocess_element_choi_from_var_with_sparsity"%string, x)) (seq 0 m))
+  else None.
+
 Section C11_Cvx.
 Context (F : OF).
 Notation Cx := (CF F).
@@ -120,4 +131,18 @@ Definition C11_choi_sp (d : nat) (B : nat -> cmat F) (var : rvec F) : cmat F :=
 (* mprocess_element_choi_from_var_with_sparsity: vec = C11_mp_vec_sp (above), then reshape(T @ vec) *)
 Definition C11_mp_choi_sp (d m : nat) (B : nat -> cmat F) (var : rvec F) (x : nat) : cmat F :=
   C11_reshapeF (d * d) (C11_bbcT_mul d B (C11_mp_vec_sp (d * d) m var x)).
+
+(* ---- the CVXPY loss expressions (quara/interface/cvxpy/qtomography/standard/loss_function.py) on predicted probabilities p i j,
+   data q i j, schedule ratios c i (num_data_ratios), S schedules with nout i outcomes; [ln] = np.log = cp.log (oracle) *)
+Definition C11_gt (a b : F) : bool := negb (kleb F a b).
+(* CvxpyUniformSquaredError:  sum_i c_i sum_j (p_ij - q_ij)^2 *)
+Definition C11_cvx_se (S : nat) (nout : nat -> nat) (c : nat -> F) (q p : nat -> nat -> F) : F :=
+  sumn S (fun i => c i * sumn (nout i) (fun j => (p i j - q i j) * (p i j - q i j))).
+(* CvxpyRelativeEntropy:  sum_i c_i sum_{j : q_ij > eps} q_ij (ln q_ij - ln p_ij)   (ALL terms of an outcome are skipped together) *)
+Definition C11_cvx_re (ln : F -> F) (eps : F) (S : nat) (nout : nat -> nat) (c : nat -> F) (q p : nat -> nat -> F) : F :=
+  sumn S (fun i => c i * sumn (nout i) (fun j => if C11_gt (q i j) eps then q i j * (ln (q i j) - ln (p i j)) else 0)).
+(* CvxpyApproximateRelativeEntropyWithZeroProbabilityTerm:  sum_i c_i sum_j ( q_ij > eps ? (p_ij - q_ij)^2 / (2 q_ij) : p_ij ) *)
+Definition C11_cvx_are (eps : F) (S : nat) (nout : nat -> nat) (c : nat -> F) (q p : nat -> nat -> F) : F :=
+  sumn S (fun i => c i * sumn (nout i) (fun j =>
+     if C11_gt (q i j) eps then ((p i j - q i j) * (p i j - q i j)) / ((1 + 1) * q i j) else p i j)).
 End C11_Cvx.
